@@ -38,17 +38,20 @@ func newStats() *stats { return &stats{Dist: map[string]int{}, Extra: map[string
 
 func (s *stats) count(k string) { s.Dist[k]++ }
 
-// shards are evaluated by 14 coqc processes in parallel: one round of equal shards
+// shards are evaluated by 14 coqc processes in parallel; a shard holds at most 160 cases and at most
+// about 1 MB of terms (memory of one coqc grows with the size of its case file)
 func shardSizeFor(n int) int {
 	sz := (n + 13) / 14
 	if sz < 20 {
 		sz = 20
 	}
 	if sz > 160 {
-		sz = (n + 27) / 28
+		sz = 160
 	}
 	return sz
 }
+
+const shardBytes = 1 << 20
 
 type coqCase struct {
 	id   int
@@ -61,10 +64,12 @@ func writeShards(dir, prop string, imports string, scenTy, obsTy, admits, spec s
 
 	nsh := 0
 	shardSize := shardSizeFor(len(cases))
-	for start := 0; start < len(cases) || (start == 0 && nsh == 0); start += shardSize {
-		end := start + shardSize
-		if end > len(cases) {
-			end = len(cases)
+	for start := 0; start < len(cases) || (start == 0 && nsh == 0); {
+		end := start
+		bytes := 0
+		for end < len(cases) && end-start < shardSize && (bytes < shardBytes || end == start) {
+			bytes += len(cases[end].scen) + len(cases[end].obs)
+			end++
 		}
 		var sb strings.Builder
 		fmt.Fprintf(&sb, "From Flyt Require Import %s.\n", imports)
@@ -101,6 +106,7 @@ func writeShards(dir, prop string, imports string, scenTy, obsTy, admits, spec s
 			return nsh, err
 		}
 		nsh++
+		start = end
 		if end >= len(cases) {
 			break
 		}
@@ -169,6 +175,8 @@ func main() {
 		err = valuesMain(*prop, *tier, *seed, *out, *replay)
 	case "bind":
 		err = bindMain(*prop, *tier, *seed, *out, *replay)
+	case "lockscan":
+		err = lockscanMain(*prop, *tier, *seed, *out, *replay)
 	case "batchstress":
 		err = batchStressMain(*prop, *tier, *seed, *out, *replay)
 	case "wait":
